@@ -1,8 +1,20 @@
-(* C04 -- pinned statements only (generated once by tools/pin.py from `Check`, then fixed); proofs in RcP.v *)
+(* C04 -- pinned statements only; the statement text below is the definition of RcSpec.v written out (the proof is
+   `exact`, so it is checked to be convertible with it); proofs in RcP.v (strong side) and RcWeakP.v (weak side) *)
 From Coq Require Import ZArith List Bool Lia Arith.
 Import ListNotations.
-Require Import Params StateW DisposeW Rc RcSpec RcP.
+Require Import Params StateW DisposeW Rc RcSpec RcP RcWeakP.
 Local Open Scope Z_scope.
+
+Theorem C04_at_most_once_in_order :
+  forall s0 sched t rec s' obs, fresh_start s0 -> bounded_run s0 sched -> live_counted s0 sched ->
+  let s := mrun s0 sched in
+  micro s t rec = Some (s', obs) ->
+  forall o ob ob', geto s o = Some ob -> geto s' o = Some ob' ->
+    (dropped ob = true -> dropped ob' = true) /\ (freed ob = true -> freed ob' = true) /\
+    (dropped ob = false -> dropped ob' = true -> In 1102 obs /\ destructed (word ob) = true /\ freed ob = false) /\
+    (freed ob = false -> freed ob' = true -> In 1100 obs /\ dropped ob = true).
+Proof. exact RcWeakP.C04. Qed.
+Print Assumptions C04_at_most_once_in_order.
 
 Theorem C04_flags_final :
   forall (s : state) (t : nat) (rec : list Z) (s' : state) (o : list Z),
@@ -10,13 +22,4 @@ Theorem C04_flags_final :
        tde_ok s -> counted_ok s -> bounded s -> bounded s' -> micro s t rec = Some (s', o) -> flags_mono s s'.
 Proof. exact RcP.micro_flags_mono. Qed.
 Print Assumptions C04_flags_final.
-
-Theorem C04_tde :
-  forall (s0 : state) (sched : list (nat * list Z)) (t : nat) (rec : list Z) (s' : state) (obs : list Z),
-       run_hyps s0 sched ->
-       let s := mrun s0 sched in
-       micro s t rec = Some (s', obs) ->
-       forall (o : nat) (ob ob' : obj), geto s o = Some ob -> geto s' o = Some ob' -> C04_concl ob ob' obs.
-Proof. exact RcP.C04_tde. Qed.
-Print Assumptions C04_tde.
 
